@@ -16,6 +16,7 @@ def run(rep):
     w = rep.world('dev')
     rep.guard(s1, rep, w)
     rep.guard(s2, rep, w)
+    rep.guard(s12, rep, w)
     rep.guard(s3, rep, w)
     rep.guard(s4, rep, w)
     rep.guard(s5, rep, w)
@@ -148,6 +149,42 @@ def s2(rep, w):
     for f in choosers:
         s2_chooser(rep, w, r, f)
     s2_capture(rep, w, r)
+
+
+def s12(rep, w, prop='C06'):
+    """locals leave the stack from the top: the instruction for the local declared last comes first. Whatever route the list of scope-exit
+    instructions takes from Compiler.locals to emit_byte (iterator adapters, a collected vector, a second loop), the sequence that is emitted
+    is the declaration order reversed - at the end of a scope and on the break / continue path alike. With a captured and an uncaptured local
+    in the wrong order the captured one is removed by a plain Pop: its upvalue stays open on a dead slot."""
+    import seqdir
+    r = rep.rule('S12', 'scope-exit instructions are emitted for the innermost local first (declaration order reversed) on every route from Compiler.locals to the emitter', floor=1)
+    choosers = {g.path for g in scope_exit_choosers(w)}
+    if not choosers:
+        raise Broken(prop, 'anchor', 'no function of the compiler branches on Local.is_captured')
+    cg = w.callgraph()
+    via = set(choosers)
+    for _ in range(2):
+        via |= {a for a, bs in cg.items() if bs & via}
+    EM = (P + 'emit_byte', P + 'emit_bytes', 'yarel::chunk::Chunk::write')
+    n = 0
+    for p_ in sorted(via):
+        f = w.fns.get(p_)
+        if f is None or not f.file.endswith('compiler.rs'):
+            continue
+        for (bi, d, why) in seqdir.emission_directions(w, f, 'locals', EM):
+            if d is None and why.startswith('other field'):
+                continue          # a loop over some other table (upvalue descriptors, ...)
+            if d is None:
+                if p_ in choosers or any(x in choosers for x in cg.get(p_, ())):
+                    raise Broken(prop, 'anchor', 'S12: order of the scope-exit emission in %s cannot be determined (%s)' % (p_, why))
+                continue
+            n += 1
+            r.check(d == -1, '%s / emission loop #%d runs over the locals innermost first' % (p_.replace('yarel::compiler::', ''), n if False else 0) if False else
+                    '%s / scope-exit emission runs over the locals innermost first' % p_.replace('yarel::compiler::', ''),
+                    'the scope-exit instructions are emitted in declaration order (outermost local first) in %s: with a captured and an uncaptured local in one scope the '
+                    'captured one is taken off by the other\'s Pop, its upvalue stays open, and closures read whatever reuses the slot' % p_, f.loc(f.blocks[bi]['t'].get('sp')))
+    if n == 0:
+        raise Broken(prop, 'floor', 'S12: no scope-exit emission loop found')
 
 
 def scope_exit_choosers(w):
